@@ -63,7 +63,10 @@ pub struct World {
 	/// C01/H1: check that every blocking request made while holding asks for a lock whose address is above
 	/// every lock held (the rank of the sorting collections)
 	pub order_check: bool,
+	/// direction of the order (taken from the code by the harness): descending addresses
+	pub order_desc: bool,
 	pub max_held_addr: usize,
+	pub min_held_addr: usize,
 	/// C10: a flag to sample at the moment an exclusive hold is released (0 = none), and the samples
 	pub probe_flag: usize,
 	pub probe_samples: u8,
@@ -94,7 +97,9 @@ impl World {
 			fault_op: 0,
 			fault_class: 0,
 			order_check: false,
+			order_desc: false,
 			max_held_addr: 0,
+			min_held_addr: usize::MAX,
 			probe_flag: 0,
 			probe_samples: 0,
 			probe_all_set: true,
@@ -191,12 +196,16 @@ impl VState {
 		if a > w.max_held_addr {
 			w.max_held_addr = a;
 		}
+		if a < w.min_held_addr {
+			w.min_held_addr = a;
+		}
 	}
 
 	fn note_released(&self) {
 		let w = w();
 		if w.held == 0 {
 			w.max_held_addr = 0;
+			w.min_held_addr = usize::MAX;
 		}
 	}
 
@@ -204,7 +213,8 @@ impl VState {
 		let w = w();
 		if w.order_check && w.held > 0 {
 			// H1 of lemma L3: ordered hold-and-wait
-			assert!(self as *const VState as usize > w.max_held_addr, "C01_blocking_request_ranks_above_every_lock_held");
+			let a = self as *const VState as usize;
+			assert!(if w.order_desc { a < w.min_held_addr } else { a > w.max_held_addr }, "C01_blocking_request_ranks_above_every_lock_held");
 		}
 		w.blocking_issued = true;
 		if w.held > 0 {
